@@ -489,6 +489,15 @@ impl<'a, 'tcx> Cx<'a, 'tcx> {
             }
         }
         if !d.contains_key("v") {
+            // reference to a small plain-data constant (promoted `&CONST`): value of the pointee
+            if let ty::Ref(_, inner, _) = ty.kind() {
+                if let Some(v) = self.pointee_scalar(c, *inner) {
+                    d.insert("pv".into(), J::Raw(v));
+                    d.insert("pty".into(), J::s(&inner.to_string()));
+                }
+            }
+        }
+        if !d.contains_key("v") {
             // string literals and anything else: debug text, bounded
             let mut s = format!("{}", c.const_);
             if s.len() > 200 {
@@ -497,6 +506,41 @@ impl<'a, 'tcx> Cx<'a, 'tcx> {
             d.insert("s".into(), J::s(&s));
         }
         J::Obj(d)
+    }
+
+    fn pointee_scalar(&self, c: &ConstOperand<'tcx>, inner: Ty<'tcx>) -> Option<String> {
+        let tcx = self.tcx;
+        let lay = tcx.layout_of(self.env.as_query_input(inner)).ok()?;
+        let size = lay.size.bytes() as usize;
+        if size == 0 || size > 16 {
+            return None;
+        }
+        match inner.kind() {
+            ty::Bool | ty::Char | ty::Int(_) | ty::Uint(_) => {}
+            ty::Adt(adt, _) if adt.is_struct() => {}
+            _ => return None,
+        }
+        let val = c.const_.eval(tcx, self.env, c.span).ok()?;
+        let scalar = match val {
+            ConstValue::Scalar(s) => s,
+            _ => return None,
+        };
+        let ptr = scalar.to_pointer(&tcx).discard_err()?;
+        let (prov, offset) = ptr.into_raw_parts();
+        let alloc_id = prov?.alloc_id();
+        let alloc = match tcx.try_get_global_alloc(alloc_id)? {
+            rustc_middle::mir::interpret::GlobalAlloc::Memory(a) => a,
+            _ => return None,
+        };
+        let start = offset.bytes() as usize;
+        let bytes = alloc
+            .inner()
+            .inspect_with_uninit_and_ptr_outside_interpreter(start..start + size);
+        let mut v: u128 = 0;
+        for (i, b) in bytes.iter().enumerate() {
+            v |= (*b as u128) << (8 * i);
+        }
+        Some(format!("{}", v))
     }
 
     fn stmt(&self, st: &Statement<'tcx>) -> Option<J> {
